@@ -52,6 +52,7 @@ FAMILY = [
     ("p/addn-5/res.v2.json", "p/addn-5", "file"),     # several dots: the extension is what follows the LAST one
     ("p/addn-~X~/lnk~E", "p", "cmd"),
     ("p/sub", "p", "cmd"),
+    ("p/one", "p", "cmd"),            # a first-command used mid-query
     ("p/twice", "p", "cmd"),          # text -> longer text: same state type before and after
     ("q/twice", "q", "cmd"),          # int -> larger int
 ]
